@@ -25,3 +25,4 @@ def run(project, rep):
     rep.run(N.n_r7_routing, project, rep)
     rep.run(N.n_r7c_service_urls, project, rep)
     rep.run(N.n_r8_cookies, project, rep)
+    rep.run(N.n_r9_constructor_params, project, rep)
